@@ -468,7 +468,14 @@ def threadsafe_async_cache(
                 await aio.shield(waiter)
             except aio.TimeoutError:  # Possible original task lost?
                 pass  # Need to loop around and check
-            except (Exception, aio.CancelledError):
+            except (Exception, aio.CancelledError) as e:
+                if (isinstance(e, aio.CancelledError)
+                        and waiter.cancelled()
+                        and not _current_task_cancelling()):
+                    # Only the waiter was cancelled, not this task: the
+                    # caching loop is most likely shutting down and
+                    # cancelled our wait inside it. Loop around & check
+                    continue
                 if not waiter.done():
                     waiter.cancel()
                     try:
@@ -478,6 +485,15 @@ def threadsafe_async_cache(
                 raise
 
     return _wrapper  # type: ignore[return-value]
+
+
+def _current_task_cancelling() -> bool:
+    """
+    True if cancellation has been requested for the current task
+    itself. Always False before Python 3.11, which can't tell.
+    """
+    cancelling = getattr(aio.current_task(), 'cancelling', None)
+    return bool(cancelling is not None and cancelling())
 
 
 _BufferFunc = Callable[[Set[T]], Awaitable[None]]
